@@ -151,6 +151,29 @@ func (g *c09SrvGen) section() verifh.Section {
 				} else {
 					rt = g.toks(len(ptoks), mode)
 				}
+			case x < 45 && mode == 1 && len(regs) > 0:
+				// outside the hypothesis: an earlier route of this group with its first variable renamed
+				// (and possibly another last segment): two variable children at one node
+				base := regs[r.Intn(len(regs))]
+				if len(base.toks) > len(ptoks) && strings.Join(base.toks[:len(ptoks)], "/") == strings.Join(ptoks, "/") {
+					rt = append([]string{}, base.toks[len(ptoks):]...)
+					for j, t := range rt {
+						if strings.HasPrefix(t, ":") {
+							if t == ":x" {
+								rt[j] = ":y"
+							} else {
+								rt[j] = ":x"
+							}
+							if r.Bool() && j+1 < len(rt) {
+								rt[len(rt)-1] = g.lit()
+							}
+							break
+						}
+					}
+					m = base.m
+				} else {
+					rt = g.toks(len(ptoks), mode)
+				}
 			default:
 				rt = g.toks(len(ptoks), mode)
 			}
